@@ -110,9 +110,32 @@ func runResp(t *Toks) string {
 		r := req.NewModifyResponse(opts...)
 		resp, base = r, r
 	}
+	w, err := c.NewResponseWriter(3)
+	if err != nil {
+		return "HARNESS-ERROR writer"
+	}
+	var segs []string
+	writeNow := func() bool {
+		before := buf.Len()
+		if err := w.Write(resp); err != nil {
+			return false
+		}
+		out := buf.Bytes()[before:]
+		h := hx(out)
+		if mapKeys >= 2 {
+			h = "-"
+		}
+		segs = append(segs, h+" | "+parseResponseCanon(out, mapKeys))
+		return true
+	}
 	nset := t.Int()
 	for i := 0; i < nset; i++ {
 		switch t.Next() {
+		case "write":
+			// the handler writes the response now and goes on modifying it
+			if !writeNow() {
+				return "WRITEERR"
+			}
 		case "code":
 			base.SetResultCode(int(int64T(t)))
 		case "diag":
@@ -147,19 +170,10 @@ func runResp(t *Toks) string {
 			}
 		}
 	}
-	w, err := c.NewResponseWriter(3)
-	if err != nil {
-		return "HARNESS-ERROR writer"
-	}
-	if err := w.Write(resp); err != nil {
+	if !writeNow() {
 		return "WRITEERR"
 	}
-	out := buf.Bytes()
-	h := hx(out)
-	if mapKeys >= 2 {
-		h = "-"
-	}
-	return h + " | " + parseResponseCanon(out, mapKeys)
+	return strings.Join(segs, " || ")
 }
 
 // ---------------------------------------------------------------------------
@@ -510,6 +524,9 @@ func genC04(g *Gen) {
 		}
 		for j := r.Intn(5); j > 0; j-- {
 			sets = append(sets, g.setterStr(kind))
+			if r.Intn(4) == 0 {
+				sets = append(sets, "write") // written, then modified further and written again
+			}
 		}
 		g.emit("resp", fmt.Sprint(g.msgID()), kind, hx(g.str()), listStr(opts), listStr(sets))
 	}
